@@ -16,6 +16,7 @@ SMALL = {"users": "u1,u2", "roles": "r1", "dbs": "d1", "tbls": "t1,t2"}
 BIG = {"users": "u1,u2,u3", "roles": "r1,r2", "dbs": "d1,d2", "tbls": "t1,t2"}
 EXACT = {"users": "u1,u1@%", "roles": "r1", "dbs": "d1", "tbls": "t1"}
 TRACE_CFG = "Trace_Privileges.cfg"     # its vocabulary contains FULL and SMALL
+DYNAMIC = ("REPLICATION_SLAVE_ADMIN", "CLONE_ADMIN")      # the dynamic privileges of the vocabulary
 
 
 def vocab_args(v):
@@ -133,6 +134,8 @@ def _only(a, b):
                 kinds.add("role-with-admin-option")
             elif " ON " not in g:
                 kinds.add("role")
+            elif any(d in g for d in DYNAMIC):
+                kinds.add("dynamic-privileges")
             else:
                 kinds.add("privileges")
     return ",".join(sorted(kinds))
@@ -145,7 +148,8 @@ def _sibling(name):
 def _differing(spec, eng):
     """Accounts whose existence, grants, flags or role edges differ between the two projections."""
     def acc(side):
-        return {a["a"]: (a["locked"], a["pw"], frozenset((g["db"], g["tbl"], g["p"]) for g in a["g"])) for a in side["accts"]}
+        return {a["a"]: (a["locked"], a["pw"], frozenset((g["db"], g["tbl"], g["p"]) for g in a["g"]),
+                         frozenset((d["p"], d["wgo"]) for d in a.get("d", []))) for a in side["accts"]}
     s, e = acc(spec), acc(eng)
     d = {a for a in set(s) | set(e) if s.get(a) != e.get(a)}
     se = {(x["r"], x["to"], x["adm"]) for x in spec["edges"]}
@@ -183,6 +187,10 @@ def signature(pid, m):
         return "%s|%s|%s" % (pid, k, ",".join(sorted(m["what"])))
     if k == "reload-matrix":
         return "%s|reload-matrix|%s|before=%s|after=%s" % (pid, m["cls"], m["before"], m["after"])
+    if k in ("showgrants-dyn", "reload-showgrants-dyn"):
+        flags = lambda side: {(x["a"], d["p"]) for x in side for d in x["d"]}
+        only_flag = flags(m["shown"]) == flags(m["spec"])
+        return "%s|%s|%s" % (pid, k, "grant-option" if only_flag else "privileges")
     if k == "reload-showgrants":
         return "%s|reload-showgrants|before-only=%s|after-only=%s" % (pid, _only(m["before"], m["after"]), _only(m["after"], m["before"]))
     return "%s|%s" % (pid, k)
